@@ -1,0 +1,44 @@
+/*
+ * SPDX-License-Identifier: Apache-2.0
+ */
+
+/* verif_hooks.h
+   Test-only scheduling and socket-call hooks. Everything here expands to nothing unless
+   PISTACHE_VERIF is defined.
+*/
+
+#pragma once
+
+#ifdef PISTACHE_VERIF
+
+namespace pv_hooks
+{
+    // called at every PV_YIELD point; a cooperative scheduler in the test process installs it
+    inline void (*yield_fn)(const char* tag) = nullptr;
+
+    inline void yield(const char* tag)
+    {
+        if (yield_fn)
+            yield_fn(tag);
+    }
+} // namespace pv_hooks
+
+#define PV_YIELD(tag) ::pv_hooks::yield(tag)
+// placed before acquiring a mutex: a thread that would block hands the baton back instead
+#define PV_LOCK(m, tag)                    \
+    do                                     \
+    {                                      \
+        if (::pv_hooks::yield_fn)          \
+        {                                  \
+            while (!(m).try_lock())        \
+                ::pv_hooks::yield(tag);    \
+            (m).unlock();                  \
+        }                                  \
+    } while (0)
+
+#else
+
+#define PV_YIELD(tag) ((void)0)
+#define PV_LOCK(m, tag) ((void)0)
+
+#endif
